@@ -561,6 +561,12 @@ class Interp:
             m = models.STR_METHODS.get(name)
             if m is not None:
                 return m(SStr(core.zstrval(slf)), *args, **kwargs)
+        if isinstance(slf, _re.Pattern) and name in ('match', 'search', 'fullmatch', 'finditer') \
+                and args and isinstance(args[0], str) and (self.symarg(args[1:]) or self.symarg(kwargs)):
+            n = len(args[0])
+            cargs = [args[0]] + [models.concretize_int(a, -1, n + 1) for a in args[1:]]
+            ckw = {k: models.concretize_int(v, -1, n + 1) for k, v in kwargs.items()}
+            return f(*cargs, **ckw)
         if isinstance(slf, (list, tuple)) and name == 'count' and (self.symarg(args) or self.symarg(slf)):
             acc = []
             for x in slf:
@@ -1220,6 +1226,10 @@ class Interp:
         symi = isinstance(i, Sym) or (isinstance(i, slice) and (
             isinstance(i.start, Sym) or isinstance(i.stop, Sym) or isinstance(i.step, Sym)))
         if isinstance(o, str) and symi:
+            if len(o) <= 120:
+                # a concrete text sliced at a symbolic position: fork over its (finite) positions so
+                # that the result stays concrete (regexes and tokenizers can then run natively)
+                return models.seq_getitem(o, i)
             return models.str_getitem(SStr(core.zstrval(o)), i)
         if symi and isinstance(o, (list, tuple)):
             return models.seq_getitem(o, i)
